@@ -191,6 +191,8 @@ func (vc *VC) execBlock(act *Act, b *ssa.BasicBlock, st *State, from int) {
 			s1.guard = vc.def("g", "Bool", and(st.guard, c))
 			s2 := st.clone()
 			s2.guard = vc.def("g", "Bool", and(st.guard, not(c)))
+			vc.loopExitDo(act, b, b.Succs[0], s1)
+			vc.loopExitDo(act, b, b.Succs[1], s2)
 			vc.addEdge(act, b, b.Succs[0], s1)
 			vc.addEdge(act, b, b.Succs[1], s2)
 			return
@@ -214,6 +216,22 @@ func (vc *VC) execBlock(act *Act, b *ssa.BasicBlock, st *State, from int) {
 		default:
 			vc.execInstr(act, st, ins)
 		}
+	}
+}
+
+// loopExitDo applies the `exit-do` ghost updates of a loop when control leaves it through the header.
+func (vc *VC) loopExitDo(act *Act, b, succ *ssa.BasicBlock, st *State) {
+	if act.fc == nil || !isLoopHeader(b) || loopBody(b)[succ] {
+		return
+	}
+	lc := vc.loopContract(act, b, vc.eng.loopHeaders(act.fn)[b])
+	if lc == nil {
+		return
+	}
+	for _, d := range lc.ExitDo {
+		env := vc.specEnv(act, st, act.entry, "invariant", b)
+		tv := env.evalTV(d.Expr)
+		st.ghost[d.Name] = vc.def("gh_"+d.Name, "Int", flatten(tv.v)[0])
 	}
 }
 
@@ -456,8 +474,10 @@ func (vc *VC) loopEffects(act *Act, body map[*ssa.BasicBlock]bool) loopFacts {
 					} else if callee := ci.Call.StaticCallee(); callee != nil {
 						if fc := vc.eng.contractFor(callee); fc != nil {
 							noteContract(fc)
-						} else if vc.eng.externFor(callee) == nil && vc.eng.ifaceContractOfImpl(callee) == nil && len(vc.eng.eventsFor("call", vc.eng.eventKeyOf(callee))) == 0 && vc.eng.mayReachEvent(callee) {
-							lf.allGhosts = true
+						} else if vc.eng.externFor(callee) == nil && vc.eng.ifaceContractOfImpl(callee) == nil && len(vc.eng.eventsFor("call", vc.eng.eventKeyOf(callee))) == 0 {
+							for g := range vc.eng.reachableGhosts(callee) {
+								lf.ghosts[g] = true
+							}
 						}
 					} else if ci.Call.IsInvoke() {
 						if ic := vc.eng.ifaceContract(ci.Call.Value.Type(), ci.Call.Method.Name()); ic != nil {
@@ -1053,7 +1073,7 @@ func (vc *VC) execInstr(act *Act, st *State, ins ssa.Instruction) {
 		case SliceV:
 			w := width(i.X.Type().Underlying().(*types.Slice).Elem())
 			vc.safety(act, st, "index", fmt.Sprintf("(and (>= %s 0) (< %s %s))", idx, idx, x.ln), i.Pos())
-			act.env[i] = PtrV{x.ref, vc.def("ix", "Int", fmt.Sprintf("(* (+ %s %s) %d)", x.off, idx, w))}
+			act.env[i] = PtrV{x.ref, vc.def("ix", "Int", vc.elemIdx(x.off, idx, w))}
 		case PtrV:
 			arr := i.X.Type().Underlying().(*types.Pointer).Elem().Underlying().(*types.Array)
 			w := width(arr.Elem())
